@@ -225,11 +225,14 @@ Definition null_when_exhausted_stmt : Prop :=
      (exists j, 1 <= j <= dist_to_end a e /\ a' = (a + j) mod 252 /\ ~ sibling_holds r k a' /\
                 (forall j', 1 <= j' < j -> sibling_holds r k ((a + j') mod 252)) /\ dist_to_end a' e = dist_to_end a e - j)).
 (* consequence for a run of losses of one device while the siblings stay where they are: after more losses than the distance to the
-   search end the device is at the null address *)
-Fixpoint lose (n:nat) (r:rnode) (i:Z) : rnode := match n with O => r | S n' => lose n' (next_address 300 r i false) i end.
+   search end the device is at the null address.  (The run is a relation, not a function: conversion on terms containing
+   [next_address 300 ..] is exponential in the fuel.) *)
+Inductive after_losses (i:Z) : nat -> rnode -> rnode -> Prop :=
+| al_0 r : after_losses i O r r
+| al_S n r r' : after_losses i n (next_address 300 r i false) r' -> after_losses i (S n) r r'.
 Definition exhausted_run_stmt : Prop :=
-  forall r k n, (k < lib_ndev r)%nat -> 0 <= lib_src r k <= 251 -> 0 <= d_claim_end (lib_dev r k) <= 251 ->
-    (Z.of_nat n > dist_to_end (lib_src r k) (d_claim_end (lib_dev r k))) -> lib_src (lose n r (Z.of_nat k)) k = 254.
+  forall r k n r', (k < lib_ndev r)%nat -> 0 <= lib_src r k <= 251 -> 0 <= d_claim_end (lib_dev r k) <= 251 ->
+    after_losses (Z.of_nat k) n r r' -> (Z.of_nat n > dist_to_end (lib_src r k) (d_claim_end (lib_dev r k))) -> lib_src r' k = 254.
 
 (* every way a device's own address changes raises the address-changed indication: a claim (lost arbitration, exhausted search),
    a commanded address, Open()/Restart() (restart of a device at the null address) *)
